@@ -8,6 +8,9 @@ CLAIMED = {
  "C28": dict(cat="proof", technique="Coq theorems over a transliterated Gallina model + in-Coq (vm_compute) correspondence with the real lalrpop_util::ParseError",
    text="Full: the ParseError helper functions are transliterated to Gallina (Rt/ParseError.v); Props/C28.v proves for all values, all closures and expected lists of any length that map_location/map_token/map_error change exactly their own fields (incl. FnMut call count/order), the Display forms and the 'Expected one of a, b or c' list form, From<E>. The model is tied to lalrpop-util/src/lib.rs on every run by evaluating it inside Coq on exhaustive small domains plus random values against the outputs of the real functions.",
    ref="DESIGN.md §4 C28", note="Trusted: Coq kernel + vm_compute; harness perr.rs; Display impls of L/T/E abstracted as functions; fmt::Write assumed infallible. No axioms (Print Assumptions: closed)."),
+ "C17": dict(cat="proof", technique="Coq invariant proof over a line-by-line Gallina model of state_machine.rs (any tables) + in-Coq correspondence with the real Parser::drive on tables read from lalrpop's output",
+   text="Full for the table-driven back end: LR/Driver.v models Parser::{drive,parse,parse_eof,error_recovery,accepts,next_token} and the generated __reduce/__accepts; Props/C17.v proves for ALL tables, oracles, inputs and fuel that a stream Err(e) that is reached is returned verbatim, is the last item pulled and the last event, and that a failing =>? action (in ordinary reduces, at EOF, or inside error recovery's reductions) ends the run with exactly User{e} as the last event. Tie: the real Parser::drive is run over tables translated from freshly generated parsers (lane/LALR/LR1) with injected stream errors and failing-action oracles and compared inside Coq (vm_compute) with the model; the statement is also judged directly on every implementation output. Recursive-ascent back end and the Result->User conversion of __ToTriple are covered by the compiled-parser tier only.",
+   ref="DESIGN.md §4 C17", note="Trusted: Coq kernel + vm_compute; tools/lrtab.py reading literals; harness/drv.rs glue mirroring generated __reduce; user actions abstracted as an oracle. No axioms."),
 }
 NOT_YET = "check not built yet in this round (see DESIGN.md §9 staging); not claimed until its check runs clean"
 
